@@ -275,6 +275,17 @@ def check_state(plan, w, originals, ref_outputs, ref_stdout, res, snap, faults, 
             want = ref_outputs.get(name)
             have = outputs_of(snap, w, plan, name)
             complete = want is not None and any(b == want for b in have.values())
+            # ordering, not only state: "if opening, writing, flushing or closing the output fails at any point, the
+            # original file is still present" - also when every byte happened to reach the file before the failure
+            failed_out = [f for f in res.fired if f["kind"] in ("error", "short") and f.get("event") in ("open_out", "write", "flush", "close")
+                          and f.get("path") in have]
+            if complete and failed_out:
+                vios.append({"class": "input-removed-although-output-failed",
+                             "key": "C12:json:removed-although-%s-failed" % failed_out[0]["event"],
+                             "detail": "input %s was removed although the %s of its output %s failed with %s; faults=%s; argv=%s" % (
+                                 name, failed_out[0]["event"], failed_out[0].get("path"), failed_out[0].get("errno"),
+                                 json.dumps(faults), argv_of(plan)),
+                             "faults": faults})
             if not complete:
                 role = "selected" if want is not None else ("junk" if name in plan["_junk"] else "filtered")
                 vios.append({"class": "input-removed-without-complete-output",
